@@ -161,7 +161,11 @@ func (intp *Interpreter) executeScanner(s *scanner) error {
 	if intp.CheckStart {
 		head := s.PeekN(2)
 		if string(head) != "%!" {
-			err := s.err
+			var err error
+			if len(head) < 2 {
+				// the look-ahead was cut short by the end of input or a read error
+				err = s.err
+			}
 			if err == nil || err == io.EOF {
 				err = ErrNoPostScript
 			}
